@@ -237,6 +237,13 @@ def run_case(case, fail, stats):
 
 
 def gen_cases(rng, n):
+    # exact ties: a singular value equal to rcond * s[0] is KEPT (only values strictly below the threshold are cut);
+    # dyadic diagonal / permutation matrices make the tie exact in floating point
+    for A, rc in [([[4, 0, 0], [0, 2, 0], [0, 0, 1]], 0.5), ([[4, 0, 0], [0, 2, 0], [0, 0, 1]], 0.25), ([[8, 0], [0, 1]], 0.125),
+                  ([[0, 3], [3, 0]], 1.0), ([[2, 0, 0], [0, 0, 2], [0, 1, 0], [0, 0, 0]], 0.5), ([[0, 0.5], [16, 0]], 0.03125)]:
+        m = len(A)
+        yield {"kind": "lstsq", "A": A, "b": [1, 1, 1, 1][:m], "rcond": rc}
+        yield {"kind": "lstsq_seq", "A": A, "calls": [[[1, 2, 3, 4][:m], rc, None], [[-1, 0, 2, 1][:m], None, None]]}
     for i in range(n):
         r = rng.random()
         if r < 0.12:
